@@ -13,6 +13,7 @@ import (
 	"os/exec"
 	"path/filepath"
 	"regexp"
+	"sort"
 	"strings"
 	"testing"
 	"time"
@@ -332,8 +333,8 @@ type pipeStep struct {
 	expect string // text that must have appeared on stdout (cumulatively) before the next step
 }
 
-func runPipeScenario(pp string, steps []pipeStep, limit time.Duration) (string, string) {
-	cmd := exec.Command(pp, "-no-color", "-rebase=false", "-parse=false")
+func runPipeScenario(pp string, flags []string, steps []pipeStep, limit time.Duration) (string, string) {
+	cmd := exec.Command(pp, flags...)
 	stdin, err := cmd.StdinPipe()
 	if err != nil {
 		return "", "stdin pipe: " + err.Error()
@@ -371,7 +372,7 @@ func runPipeScenario(pp string, steps []pipeStep, limit time.Duration) (string, 
 			return string(acc), fmt.Sprintf("step %d: write: %v", si, err)
 		}
 		deadline := time.After(limit)
-		for !bytes.Contains(acc, []byte(st.expect)) {
+		for !strings.Contains(stripANSI(string(acc)), st.expect) {
 			select {
 			case b, ok := <-got:
 				if !ok {
@@ -411,15 +412,29 @@ func TestVerifC11CLI(t *testing.T) {
 		"two-dumps":           {{dump + "between\n", "1: running"}, {dump + "end\n", "between\n"}, {"x\n", "end\n"}},
 		"byte-at-a-time-dump": append(byByte("log\n"+dump+"done\n", "1: chan receive"), pipeStep{"z\n", "done\n"}),
 	}
-	for name, steps := range scenarios {
-		out, msg := runPipeScenario(pp, steps, 30*time.Second)
-		if msg != "" {
-			r.Report(&h.Viol{Fingerprint: "C11/cli/" + name, Summary: "pp over a pipe, scenario " + name + ": " + msg, Key: "pipe " + name, Observed: trunc(out), Reproduced: 5})
-		}
-		r.Record("pipe "+name, true, fmt.Sprint(msg == ""))
-		r.Add("pipe_scenarios", 1)
+	// each scenario under several flag sets of the command (its stdout is a pipe here)
+	flagSets := [][]string{{"-no-color", "-rebase=false", "-parse=false"}, {"-force-color"}, {}, {"-full-path", "-aggressive"}, {"-rel-path", "-m", "."}}
+	var names []string
+	for name := range scenarios {
+		names = append(names, name)
 	}
-	r.Sample(map[string]any{"pipe_scenarios": []string{"junk-lines", "dump-then-end-line", "dump-blank-junk", "race-report", "two-dumps", "byte-at-a-time-dump"}, "limit": "30s liveness limit per step, stdin kept open"})
+	sort.Strings(names)
+	for _, name := range names {
+		for fi, flags := range flagSets {
+			out, msg := runPipeScenario(pp, flags, scenarios[name], 30*time.Second)
+			key := fmt.Sprintf("pipe %s flags%d", name, fi)
+			if msg != "" {
+				fp := "C11/cli/" + name
+				if fi != 0 {
+					fp += ":" + strings.Join(flags, " ")
+				}
+				r.Report(&h.Viol{Fingerprint: fp, Summary: fmt.Sprintf("pp %v over a pipe, scenario %s: %s", flags, name, msg), Key: key, Observed: trunc(out), Reproduced: 5})
+			}
+			r.Record(key, true, fmt.Sprint(msg == ""))
+			r.Add("pipe_scenarios", 1)
+		}
+	}
+	r.Sample(map[string]any{"pipe_scenarios": []string{"junk-lines", "dump-then-end-line", "dump-blank-junk", "race-report", "two-dumps", "byte-at-a-time-dump"}, "limit": "30s liveness limit per step, stdin kept open", "flag_sets": "-no-color -rebase=false -parse=false | -force-color | (none) | -full-path -aggressive | -rel-path -m ."})
 }
 
 // ---- C11 in process: process() under a scripted reader, monitored at every Read ----
@@ -662,4 +677,109 @@ func TestVerifC11Process(t *testing.T) {
 		}
 	}
 	r.Sample(map[string]any{"part": "process() monitored at every Read", "streams": names})
+}
+
+// ---- C17 end to end: pp -html ------------------------------------------------------
+
+var reTagName = regexp.MustCompile(`<(/?[a-zA-Z][a-zA-Z0-9]*)`)
+
+// tagSequence is the sequence of element names a browser would open or close.
+func tagSequence(doc string) string {
+	var b strings.Builder
+	for _, m := range reTagName.FindAllStringSubmatch(doc, -1) {
+		b.WriteString(strings.ToLower(m[1]))
+		b.WriteByte(' ')
+	}
+	return b.String()
+}
+
+// TestVerifC17CLI: the page written by -html (console pipeline, banner on and off, one and
+// two goroutines, dump and race report): text from the dump cannot introduce an element.
+// Oracle: the document for a dump carrying a markup payload has exactly the element
+// sequence of the document for the same dump with an inert word in its place.
+func TestVerifC17CLI(t *testing.T) {
+	r := h.Start("C17")
+	defer r.Finish(func(s string) { t.Error(s) })
+	if rv := r.ReplayFile(); rv != nil {
+		t.Logf("replay %s: %s\ninput:\n%s", rv.Key, rv.Summary, rv.Input())
+		return
+	}
+	payloads := []string{"<img src=x onerror=alert(1)>", "</div><script>alert(1)</script>", "\"><svg onload=alert(1)>", "<b>bold</b>", "<a href=javascript:alert(1)>x</a>", "--><h1>x</h1><!--"}
+	const inert = "harmlessword"
+	shapes := []struct {
+		name string
+		mk   func(p string) string
+	}{
+		{"state-one-goroutine", func(p string) string {
+			return "goroutine 1 [" + p + "]:\nmain.main()\n\t/a/main.go:10 +0x1\n"
+		}},
+		{"state-two-goroutines", func(p string) string {
+			return "goroutine 1 [running]:\nmain.main()\n\t/a/main.go:10 +0x1\n\ngoroutine 2 [" + p + "]:\nmain.f(0x1)\n\t/a/f.go:2 +0x1\n"
+		}},
+		{"path-one-goroutine", func(p string) string {
+			return "goroutine 1 [running]:\nmain.main()\n\t/a/" + strings.ReplaceAll(p, " ", "_") + "/main.go:10 +0x1\n"
+		}},
+		{"race-state", func(p string) string {
+			return "==================\nWARNING: DATA RACE\nWrite at 0x00c000014100 by goroutine 7:\n  main.w()\n      /a/r.go:5 +0x3a\n\nGoroutine 7 (" + strings.NewReplacer("(", "", ")", "").Replace(p) + ") created at:\n  main.main()\n      /a/r.go:20 +0x5c\n==================\n"
+		}},
+	}
+	htmlFile := filepath.Join(os.Getenv("VERIF_SCRATCH"), fmt.Sprintf("c17cli-%d.html", r.Shard))
+	defer os.Remove(htmlFile)
+	render := func(in string, banner bool, rebase bool) (string, string) {
+		_ = os.Remove(htmlFile)
+		cfg := renderCfg{pf: styleBase, level: stack.AnyPointer, html: htmlFile, banner: banner, rebase: rebase}
+		_, err, p := cfgProcess(strings.NewReader(in), cfg)
+		if p != "" {
+			return "", "panic: " + p
+		}
+		if err != nil {
+			return "", "error: " + err.Error()
+		}
+		b, rerr := os.ReadFile(htmlFile)
+		if rerr != nil {
+			return "", "no page written"
+		}
+		return string(b), ""
+	}
+	seq := 0
+	for _, sh := range shapes {
+		for pi, pl := range payloads {
+			for _, banner := range []bool{false, true} {
+				for _, rebase := range []bool{false, true} {
+					seq++
+					if !r.MineIdx(seq) || r.Expired() {
+						continue
+					}
+					key := fmt.Sprintf("html-cli %s payload%d banner=%v rebase=%v", sh.name, pi, banner, rebase)
+					in := sh.mk(pl)
+					v := r.Check(func() *h.Viol {
+						mk := func(fp, msg string) *h.Viol {
+							v := &h.Viol{Fingerprint: "C17/cli/" + fp, Summary: fmt.Sprintf("pp -html, %s, banner=%v rebase=%v, payload %q: %s", sh.name, banner, rebase, pl, msg), Key: key, Kind: "html-cli"}
+							v.SetInput([]byte(in))
+							return v
+						}
+						doc, bad := render(in, banner, rebase)
+						twin, bad2 := render(sh.mk(inert), banner, rebase)
+						if bad != "" || bad2 != "" {
+							if strings.HasPrefix(bad, "error") || (bad == "" && strings.HasPrefix(bad2, "error")) {
+								return nil // with this payload the text is not a well formed dump: nothing to render
+							}
+							return mk("render-failed", bad+" / twin: "+bad2)
+						}
+						if a, b := tagSequence(doc), tagSequence(twin); a != b {
+							v := mk("dump-text-introduces-an-element:"+sh.name, "the page's element sequence differs from that of the same dump with an inert word in place of the payload")
+							v.Expected, v.Observed = trunc(b), trunc(a)
+							return v
+						}
+						return nil
+					})
+					o := "ok"
+					if v != nil {
+						o = v.Fingerprint
+					}
+					r.Record(key, true, o)
+				}
+			}
+		}
+	}
 }
